@@ -868,6 +868,20 @@ std::vector<double> matterDigest(const Sys& S, const State& s, int stage) {
     if (stage >= 8) {
         push(d, s.getUDot()); push(d, s.getQDotDot()); push(d, s.getUDotErr());
         for (MobilizedBodyIndex b(1); b < nb; ++b) { pushSV(d, m.getMobilizedBody(b).getBodyAcceleration(s)); pushSV(d, m.getTotalCentrifugalForces(s, b)); }
+        // mobilizer reactions (read from the tree acceleration cache), constraint / motion forces, multipliers, system momentum
+        Vector_<SpatialVec> reac; m.calcMobilizerReactionForces(s, reac); for (int b = 0; b < reac.size(); ++b) pushSV(d, reac[b]);
+        for (MobilizedBodyIndex b(1); b < nb; ++b) {
+            const MobilizedBody& mb = m.getMobilizedBody(b);
+            pushSV(d, mb.findMobilizerReactionOnBodyAtMInGround(s)); pushSV(d, mb.findMobilizerReactionOnParentAtFInGround(s));
+            pushSV(d, mb.findMobilizerReactionOnBodyAtOriginInGround(s));
+        }
+        push(d, s.getMultipliers());
+        Vector_<SpatialVec> cf; Vector cm, mf; m.findConstraintForces(s, cf, cm); for (int b = 0; b < cf.size(); ++b) pushSV(d, cf[b]); push(d, cm);
+        m.findMotionForces(s, mf); push(d, mf);
+        pushSV(d, m.calcSystemMomentumAboutGroundOrigin(s)); pushSV(d, m.calcSystemCentralMomentum(s));
+        const Vec3 c0 = m.calcSystemMassCenterLocationInGround(s), c1 = m.calcSystemMassCenterVelocityInGround(s), c2 = m.calcSystemMassCenterAccelerationInGround(s);
+        for (int i = 0; i < 3; ++i) { d.push_back(c0[i]); d.push_back(c1[i]); d.push_back(c2[i]); }
+        d.push_back(m.calcKineticEnergy(s));
     }
     return d;
 }
@@ -996,6 +1010,117 @@ void matterDirected(vh::Rng& r) {
     vh::P("everyMatterClassExercised", "matter.history.coverage_floor", missing, 0.0);
 }
 
+// ---------------------------------------------------------------------------------------------------------
+// Operators taking a `const State&` must not disturb what the State reports: realize(Acceleration), call an operator
+// with random ("what-if") arguments, then take the digest WITHOUT re-realizing and compare it bit for bit with a
+// fresh State that was realized once and saw no operator call.  Keys matter.history.constop.<Operator>.bits_equal .
+Vector rvecN(vh::Rng& r, int n) { Vector v(n); for (int i = 0; i < n; ++i) v[i] = r.signedMag(.2, 3); return v; }
+Vector_<SpatialVec> rsvN(vh::Rng& r, int n) { Vector_<SpatialVec> v(n); for (int i = 0; i < n; ++i) v[i] = SpatialVec(rvec(r, .2, 3), rvec(r, .2, 3)); return v; }
+
+struct ConstOp { const char* name; std::function<bool(const Sys&, const State&, vh::Rng&)> call; };   // returns false if it could not act
+
+const std::vector<ConstOp>& constOps() {
+    static const std::vector<ConstOp> ops = {
+        { "calcAccelerationIgnoringConstraints", [](const Sys& S, const State& s, vh::Rng& r) { Vector ud; Vector_<SpatialVec> A;
+            S.matter.calcAccelerationIgnoringConstraints(s, rvecN(r, s.getNU()), rsvN(r, S.matter.getNumBodies()), ud, A); return true; } },
+        { "calcAcceleration", [](const Sys& S, const State& s, vh::Rng& r) { Vector ud; Vector_<SpatialVec> A;
+            S.matter.calcAcceleration(s, rvecN(r, s.getNU()), rsvN(r, S.matter.getNumBodies()), ud, A); return true; } },
+        { "multiplyByM", [](const Sys& S, const State& s, vh::Rng& r) { Vector o; S.matter.multiplyByM(s, rvecN(r, s.getNU()), o); return true; } },
+        { "multiplyByMInv", [](const Sys& S, const State& s, vh::Rng& r) { Vector o; S.matter.multiplyByMInv(s, rvecN(r, s.getNU()), o); return true; } },
+        { "calcM", [](const Sys& S, const State& s, vh::Rng&) { Matrix M; S.matter.calcM(s, M); return true; } },
+        { "calcMInv", [](const Sys& S, const State& s, vh::Rng&) { Matrix M; S.matter.calcMInv(s, M); return true; } },
+        { "calcProjectedMInv", [](const Sys& S, const State& s, vh::Rng&) { Matrix M; S.matter.calcProjectedMInv(s, M); return s.getNMultipliers() > 0; } },
+        { "calcResidualForce", [](const Sys& S, const State& s, vh::Rng& r) { Vector o;
+            S.matter.calcResidualForce(s, rvecN(r, s.getNU()), rsvN(r, S.matter.getNumBodies()), rvecN(r, s.getNU()), rvecN(r, s.getNMultipliers()), o); return true; } },
+        { "calcResidualForceIgnoringConstraints", [](const Sys& S, const State& s, vh::Rng& r) { Vector o;
+            S.matter.calcResidualForceIgnoringConstraints(s, rvecN(r, s.getNU()), rsvN(r, S.matter.getNumBodies()), rvecN(r, s.getNU()), o); return true; } },
+        { "multiplyBySystemJacobian", [](const Sys& S, const State& s, vh::Rng& r) { Vector_<SpatialVec> o; S.matter.multiplyBySystemJacobian(s, rvecN(r, s.getNU()), o); return true; } },
+        { "multiplyBySystemJacobianTranspose", [](const Sys& S, const State& s, vh::Rng& r) { Vector o; S.matter.multiplyBySystemJacobianTranspose(s, rsvN(r, S.matter.getNumBodies()), o); return true; } },
+        { "calcSystemJacobian", [](const Sys& S, const State& s, vh::Rng&) { Matrix J; S.matter.calcSystemJacobian(s, J); return true; } },
+        { "calcBiasForSystemJacobian", [](const Sys& S, const State& s, vh::Rng&) { Vector_<SpatialVec> o; S.matter.calcBiasForSystemJacobian(s, o); return true; } },
+        { "multiplyByStationJacobian", [](const Sys& S, const State& s, vh::Rng& r) {
+            (void)S.matter.multiplyByStationJacobian(s, MobilizedBodyIndex(S.matter.getNumBodies() - 1), rvec(r, .1, .5), rvecN(r, s.getNU())); return true; } },
+        { "calcBiasForStationJacobian", [](const Sys& S, const State& s, vh::Rng& r) {
+            (void)S.matter.calcBiasForStationJacobian(s, MobilizedBodyIndex(S.matter.getNumBodies() - 1), rvec(r, .1, .5)); return true; } },
+        { "calcTreeEquivalentMobilityForces", [](const Sys& S, const State& s, vh::Rng& r) { Vector o; S.matter.calcTreeEquivalentMobilityForces(s, rsvN(r, S.matter.getNumBodies()), o); return true; } },
+        { "calcCompositeBodyInertias", [](const Sys& S, const State& s, vh::Rng&) { Array_<SpatialInertia, MobilizedBodyIndex> R; S.matter.calcCompositeBodyInertias(s, R); return true; } },
+        { "calcMobilizerReactionForces", [](const Sys& S, const State& s, vh::Rng&) { Vector_<SpatialVec> o; S.matter.calcMobilizerReactionForces(s, o); return true; } },
+        { "calcConstraintForcesFromMultipliers", [](const Sys& S, const State& s, vh::Rng& r) { Vector_<SpatialVec> bf; Vector mf;
+            S.matter.calcConstraintForcesFromMultipliers(s, rvecN(r, s.getNMultipliers()), bf, mf); return s.getNMultipliers() > 0; } },
+        { "multiplyByG", [](const Sys& S, const State& s, vh::Rng& r) { Vector o; S.matter.multiplyByG(s, rvecN(r, s.getNU()), o); return o.size() > 0; } },
+        { "multiplyByGTranspose", [](const Sys& S, const State& s, vh::Rng& r) { Vector o; S.matter.multiplyByGTranspose(s, rvecN(r, s.getNMultipliers()), o); return s.getNMultipliers() > 0; } },
+        { "calcG", [](const Sys& S, const State& s, vh::Rng&) { Matrix G; S.matter.calcG(s, G); return G.nrow() > 0; } },
+        { "calcGTranspose", [](const Sys& S, const State& s, vh::Rng&) { Matrix G; S.matter.calcGTranspose(s, G); return G.ncol() > 0; } },
+        { "multiplyByPq", [](const Sys& S, const State& s, vh::Rng& r) { Vector o; S.matter.multiplyByPq(s, rvecN(r, s.getNQ()), o); return true; } },
+        { "multiplyByPqTranspose", [](const Sys& S, const State& s, vh::Rng& r) { Vector b, o; S.matter.calcBiasForMultiplyByPq(s, b);
+            S.matter.multiplyByPqTranspose(s, rvecN(r, b.size()), o); return true; } },
+        { "calcPq", [](const Sys& S, const State& s, vh::Rng&) { Matrix P; S.matter.calcPq(s, P); return true; } },
+        { "multiplyByPV", [](const Sys& S, const State& s, vh::Rng& r) { Vector o; S.matter.multiplyByPV(s, rvecN(r, s.getNU()), o); return true; } },
+        { "calcBiasForMultiplyByG", [](const Sys& S, const State& s, vh::Rng&) { Vector b; S.matter.calcBiasForMultiplyByG(s, b); return b.size() > 0; } },
+        { "calcBiasForAccelerationConstraints", [](const Sys& S, const State& s, vh::Rng&) { Vector b; S.matter.calcBiasForAccelerationConstraints(s, b); return b.size() > 0; } },
+        { "calcConstraintAccelerationErrors", [](const Sys& S, const State& s, vh::Rng& r) { Vector o; S.matter.calcConstraintAccelerationErrors(s, rvecN(r, s.getNU()), o); return o.size() > 0; } },
+        { "calcBodyAccelerationFromUDot", [](const Sys& S, const State& s, vh::Rng& r) { Vector_<SpatialVec> A; S.matter.calcBodyAccelerationFromUDot(s, rvecN(r, s.getNU()), A); return true; } },
+        { "calcQDot", [](const Sys& S, const State& s, vh::Rng& r) { Vector o; S.matter.calcQDot(s, rvecN(r, s.getNU()), o); return true; } },
+        { "calcQDotDot", [](const Sys& S, const State& s, vh::Rng& r) { Vector o; S.matter.calcQDotDot(s, rvecN(r, s.getNU()), o); return true; } },
+        { "multiplyByN", [](const Sys& S, const State& s, vh::Rng& r) { Vector o; S.matter.multiplyByN(s, false, rvecN(r, s.getNU()), o); S.matter.multiplyByN(s, true, rvecN(r, s.getNQ()), o); return true; } },
+        { "multiplyByNInv", [](const Sys& S, const State& s, vh::Rng& r) { Vector o; S.matter.multiplyByNInv(s, false, rvecN(r, s.getNQ()), o); S.matter.multiplyByNInv(s, true, rvecN(r, s.getNU()), o); return true; } },
+        { "multiplyByNDot", [](const Sys& S, const State& s, vh::Rng& r) { Vector o; S.matter.multiplyByNDot(s, false, rvecN(r, s.getNU()), o); S.matter.multiplyByNDot(s, true, rvecN(r, s.getNQ()), o); return true; } },
+        { "findConstraintForces", [](const Sys& S, const State& s, vh::Rng&) { Vector_<SpatialVec> bf; Vector mf; S.matter.findConstraintForces(s, bf, mf); return true; } },
+        { "findMotionForces", [](const Sys& S, const State& s, vh::Rng&) { Vector mf; S.matter.findMotionForces(s, mf); return true; } },
+        { "calcKineticEnergy", [](const Sys& S, const State& s, vh::Rng&) { (void)S.matter.calcKineticEnergy(s); return true; } },
+        { "calcSystemMomentum", [](const Sys& S, const State& s, vh::Rng&) { (void)S.matter.calcSystemCentralMomentum(s); (void)S.matter.calcSystemMassPropertiesInGround(s); return true; } },
+        { "calcPotentialEnergy", [](const Sys& S, const State& s, vh::Rng&) { (void)S.sys.calcPotentialEnergy(s); return true; } },
+    };
+    return ops;
+}
+
+void buildConstOpSystem(MatterSys& M, vh::Rng& r) {
+    M.euler = r.coin();
+    const int nb = 2 + r.below(3);
+    for (int i = 0; i < nb; ++i) {
+        MobilizedBody parent = (i == 0 || r.below(4) == 0) ? (MobilizedBody)M.S.matter.Ground() : M.S.bodies[r.below(i)];
+        M.S.bodies.push_back(addMobilizer(M.S, r, parent, r.below(M_NTYPES), r.coin()));
+    }
+    buildMatterForces(M.S, r);
+    const int nc = 1 + r.below(2);
+    for (int i = 0; i < nc; ++i) { addConstraint(M.S, r); M.S.cons.back().setDisabledByDefault(false); }
+    if (r.below(3) == 0) M.S.bodies[r.below(nb)].lockByDefault(r.coin() ? Motion::Velocity : Motion::Acceleration);   // motion forces
+    M.S.sys.realizeTopology();
+}
+
+// which = index into constOps(), or -1: a random subset (own key)
+bool constOpCase(vh::Rng& r, int which) {
+    MatterSys M; M.type = "constop";
+    buildConstOpSystem(M, r);
+    MatterRun h(M, r);
+    if (r.coin()) { h.realize(5 + r.below(4)); if (r.coin()) h.changeQ(); else h.changeU(); }
+    h.realize(8);
+    const std::vector<ConstOp>& ops = constOps();
+    bool acted = true; std::string name;
+    if (which >= 0) { name = ops[which].name; acted = ops[which].call(M.S, h.s, r); }
+    else { name = "random_subset"; const int k = 2 + r.below(6); for (int i = 0; i < k; ++i) { const ConstOp& o = ops[r.below((int)ops.size())]; o.call(M.S, h.s, r); vh::D(std::string("constop_in_subset=") + o.name); } }
+    h.askLazy();
+    const std::vector<double> a = matterDigest(M.S, h.s, 8);
+    const State f = matterFresh(M, h.s.getQ(), h.s.getU(), h.s.getTime(), 8);
+    const std::vector<double> b = matterDigest(M.S, f, 8);
+    vh::P("sameBitsAsFreshState", "matter.history.constop." + name + ".bits_equal", bitsDiff(a, b), 0.0);
+    vh::D("constop=" + name + (acted ? "" : ".NOT_APPLICABLE"));
+    return acted;
+}
+
+void constOpDirected(vh::Rng& r) {
+    const int nops = (int)constOps().size();
+    int missing = 0;
+    for (int k = 0; k < nops; ++k) {
+        int acted = 0;
+        for (int rep = 0; rep < 3; ++rep) acted += constOpCase(r, k) ? 1 : 0;
+        if (!acted) ++missing;
+    }
+    for (int rep = 0; rep < 6; ++rep) constOpCase(r, -1);
+    // floor: every operator was called at least once on a system where it has something to do
+    vh::P("everyConstOperatorExercised", "matter.history.constop.coverage_floor", missing, 0.0);
+}
+
 // random tree from the full palette, random history
 void matterRandomCase(vh::Rng& r) {
     MatterSys M; M.type = "mixed"; M.euler = r.coin();
@@ -1023,7 +1148,8 @@ int main(int argc, char** argv) {
         caseF4(r);
         directedCases(r);
         matterDirected(r);
-        for (long i = 0; i < args.n; ++i) { if (i % 3 == 2) richCase(r); else if (i % 6 == 1) matterRandomCase(r); else randomCase(r); }
+        constOpDirected(r);
+        for (long i = 0; i < args.n; ++i) { if (i % 3 == 2) richCase(r); else if (i % 6 == 1) { if (i % 12 == 1) matterRandomCase(r); else constOpCase(r, -1); } else randomCase(r); }
     } catch (const std::exception& e) {
         std::fprintf(stderr, "C16 harness: exception %s\n", e.what());
         return 3;
